@@ -48,8 +48,9 @@ func (o *Outcome) Count(key string, n int64) {
 type Engine interface {
 	Name() string
 	Property() string
-	// Generate builds the case of one run from its seed.
-	Generate(seed uint64, tier string) (json.RawMessage, error)
+	// Generate builds the case of one run from its seed. run is the index of the run in
+	// the batch: engines with a systematic (enumerated) sub-family walk it by index.
+	Generate(seed uint64, tier string, run int) (json.RawMessage, error)
 	// Execute runs a case. An error is an infrastructure problem, never a verdict.
 	Execute(c json.RawMessage) (*Outcome, error)
 	// Shrink minimises a failing case while the same violation class persists.
